@@ -23,6 +23,33 @@ def handle (c obs : String) : String × Bool × String :=
     -- fault-free materialisation of the history with a fresh stream value of the same description (Go vs Go)
     let ok := (obs.splitOn "rematerialise=ok").length > 1
     (obs, ok, if ok then "" else "spec-only: a materialisation differs from a fresh stream value: " ++ ((obs.splitOn "rematerialise=").getLast?.getD ""))
+  else if isAsync c then
+    -- histories over asynchronous stages of the reusable subset (Map with the concurrent option; Buffered around them):
+    -- schedule dependent, so spec-only: every fault-free materialisation delivers the list-level meaning as a multiset
+    -- (any n of its elements under take:n), whatever the earlier materialisations did; a crash or a hang of the case
+    -- is an unparsable observation
+    match parseCase c, parseObs obs with
+    | some (p, rs), some os =>
+      match Spec.eval p with
+      | none => (obs, true, "")
+      | some l =>
+        let full := fmtVs (l.mergeSort (fun a b => fmtV a ≤ fmtV b))
+        let rec go : List Run → List ObsRun → Nat → Bool × String
+          | r :: rs, o :: os, i =>
+            match r.fault with
+            | some _ => go rs os (i+1)
+            | none =>
+              let cnt := if o.delivered == "-" then 0 else (o.delivered.splitOn ",").length
+              let good := match r.take with
+                | none => o.ok && o.delivered == full
+                | some n => o.ok && cnt == min (if n ≤ 0 then 0 else n.toNat) l.length && subMultisetStr o.delivered full
+              if good then go rs os (i+1)
+              else (false, s!"async materialisation {i}: got {o.cls} {o.delivered}, want (a sub-multiset of) {full}")
+          | _ :: _, [], i => (false, s!"materialisation {i} has no observation")
+          | _, _, _ => (true, "")
+        let (ok, why) := go rs os 0
+        (obs, ok, why)
+    | _, _ => (obs, false, "async history: unparsable case or observation (crash / hang?)")
   else
   match parseCase c with
   | none => ("bad-case", false, "unparsable case")
